@@ -8,19 +8,86 @@ index = json.load(open(os.path.join(V, "harness_index.json")))
 TECH = "bounded model checking of the real Rust code with Kani 0.68 / CBMC 6.11 (SAT, CaDiCaL): #[kani::proof] harnesses over kani::any() inputs and arbitrary invariant-satisfying pre-states, unwinding assertions on, counterexamples replayed natively"
 
 CLAIMS = {
+ "C01": {
+  "text": "Inductive step lemmas, each decided for ALL inputs within bounds from an ARBITRARY state satisfying the representation invariant I-P (charged total == sum of per-entry charges, charges >= 0): SampledLFU increment/remove/update/clear and the LFUPolicy wrappers preserve I-P and change exactly the addressed entry's charge; room_left(c) >= 0 iff used + c <= max_cost; update_max_cost takes effect for the next computation; one processor New event at cache level preserves I-P. The admission decision itself (LFUPolicy::add: 'every admission re-establishes total <= max_cost', 'oversize never admitted') is NOT decided on the real add (15-30 GB per query, DESIGN 6/C01 Cost); callers are checked against a contract stub that over-approximates it.",
+  "note": "<= 3 residents per map, costs <= 2^40 (no i64 overflow), one step per harness; histories by induction over I-P, schedules only as sequences of lock-protected operations. The real LFUPolicy::add loop is outside the claim.",
+  "design": "6/C01"},
+ "C02": {
+  "text": "One store operation (try_insert / try_update / try_remove / get / get_mut+write) from an arbitrary store with <= 2 entries is compared against plain map semantics: the addressed key ends up holding exactly the prescribed (value, conflict, deadline), every other key is untouched, Update hands back the previous value of that same key, a non-vetoed update replaces the value immediately. At cache level the client half of insert (Cache::try_update) replaces the value of a resident key at once and a following get returns it; remove makes the key unretrievable from the moment it returns.",
+  "note": "Values are arbitrary u64 tags; 1 shard, 3-slot maps, <= 2 residents; one operation per harness (induction over histories). Multi-writer races inside a shard are serialised by the shard RwLock (trusted); ValueRef lifetime extension (unsafe) only checked on single-threaded uses.",
+  "design": "6/C02"},
+ "C03": {
+  "text": "Time kernel at full width (seconds < 2^40, every nanosecond value): is_expired iff d <= now - created; get_ttl is d - elapsed before the deadline, ZERO after, MAX without TTL, never increasing. Store lookups (get/get_mut/ValueRef::ttl) at an arbitrary instant return a value iff resident, conflict matches and the TTL has not elapsed; re-insert replaces the deadline (checked in c02_client_insert / c04_em_store_update: expiration == new, and the expiry index follows).",
+  "note": "Virtual clock, non-decreasing readings assumed; store harness with creation instants within 4 s of now and TTLs <= 4 s + arbitrary ns (the kernel harness has no window).",
+  "design": "6/C03"},
+ "C04": {
+  "text": "Expiry-index invariant I-EM (every entry with a TTL is filed, with its conflict, under the bucket of its deadline; entries without TTL are not filed; a neighbour sharing an expiry second stays filed) is preserved by ShardedMap::try_insert/try_update/try_remove from an arbitrary I-EM state with TTLs switching on and off; together with C05's cleanup lemmas (only due buckets are handed out, only elapsed TTLs are removed) and C06's I-SP this gives 'nothing is swept early'. 'Nothing refused while there is room' is decided on the contract of add only.",
+  "note": "<= 2 entries, 3-slot maps, 4 s window. The below-capacity admission clause depends on LFUPolicy::add (outside, see C01).",
+  "design": "6/C04"},
+ "C05": {
+  "text": "Bucket arithmetic at full width: an entry is filed under floor(deadline)+1; a pass at t may sweep buckets <= floor(t); every bucket that is due only holds elapsed TTLs; one bucket width after the deadline the bucket is due. ExpirationMap step lemmas (insert/update/remove keep neighbours filed; update un-files only the key); try_cleanup hands out every due bucket however late the pass is, and nothing that is not due. One cleanup tick at cache level removes only elapsed entries and all entries overdue by >= 1 s, each through on_evict exactly once with its charged cost.",
+  "note": "That the ticker fires every cleanup interval (crossbeam tick) is outside; decided is that ANY pass at or after deadline + 1 s reclaims, so the delay is one bucket width plus the distance to the next tick. <= 2 entries.",
+  "design": "6/C05"},
+ "C06": {
+  "text": "I-SP (resident <=> charged, len() == number of charged entries) is preserved by each processor event (New / Update / Delete / cleanup tick) and by client remove + its Delete, from an arbitrary quiescent I-SP state, for every admission/eviction decision of the policy (contract stub).",
+  "note": "Histories by induction; schedules only as sequences of whole events (DESIGN 5); the clear()-inside-handle_item race (D6) is documented, its harness is thorough-tier. <= 2 residents (1 for New in the quick tier), TransparentKeyBuilder (conflict 0).",
+  "design": "6/C06"},
+ "C08": {
+  "text": "Ghost accounting with a recording callback: after each processor event or client call every value tag is in exactly one place - resident, or handed to exactly one of on_exit / on_evict / on_reject exactly once; replaced and removed values go to on_exit, evicted/expired to on_evict, refused to on_reject; processing a Delete after a client remove fires no second callback.",
+  "note": "Step lemmas from arbitrary quiescent states with <= 2 residents; clear() drops residents without callback (the stated exception). Races between clients are covered only as sequences.",
+  "design": "6/C08"},
+ "C09": {
+  "text": "Validator veto (symbolic answer = every predicate): store try_update/try_insert leave value, deadline AND expiry index exactly as they were; the client half of insert / insert_if_present (Cache::try_update) leaves the store untouched on veto or absent key, queues nothing for insert_if_present, also with a not-yet-applied New for the same key in the buffer.",
+  "note": "Cache::try_insert_in's select! cannot be compiled by Kani; its pre-select half is what is decided, the enqueue and closed-flag test are by reading.",
+  "design": "6/C09"},
+ "C10": {
+  "text": "NARROWED: with the blocking half of WaitGroup::wait replaced by 'run the parked processor to quiescence, then the counter must be zero', wait() enqueues its marker behind earlier work, the marker is released on the processor path and on the cleaner path (clear() racing after the marker was queued), admitted inserts are retrievable and charged and removes applied when it returns; on a full buffer wait() and remove() return errors instead of blocking; on a closed cache Ok without queuing.",
+  "note": "NOT decided: 'never blocks forever' under races with close() (O3: by reading it can hang), other threads' operations, real wake-ups.",
+  "design": "6/C10, 8"},
+ "C11": {
+  "text": "clear() + the processor's handling of the clear signal from an arbitrary quiescent state with <= 2 residents and optionally a buffered New item: nothing inserted before is retrievable, len and charged cost are zero, estimator zeroed, metrics counters zero, buffered insert discarded through on_evict; a key that had a TTL before the clear and is re-used with another TTL or none is only reclaimed by its NEW deadline.",
+  "note": "Interleavings of clear() with a processor that is in the middle of handle_item (D6) are documented, not claimed.",
+  "design": "6/C11"},
  "C13": {
-  "text": "Step lemmas decided by the solver for ALL inputs within bounds: from an arbitrary counter row / arbitrary 4-row sketch with arbitrary seeds, increment raises exactly the addressed counter by one saturating at 15 and never lowers another estimate, reset halves every counter, clear zeroes; CountMinSketch::new(n) for every n in [1,65536] yields rows that can hold mask+1 counters and a fresh sketch estimates 0 then 1; TinyLFU step: estimate after increment >= min(estimate+1, 16) unless the aging reset fired, in which case w=0, doorkeeper empty and counters halved. By induction over these steps: estimate >= min(16, #recorded since last reset).",
+  "text": "Step lemmas decided by the solver for ALL inputs within bounds: from an arbitrary counter row / arbitrary 4-row sketch with arbitrary seeds, increment raises exactly the addressed counter by one saturating at 15 and never lowers another estimate, reset halves every counter, clear zeroes; CountMinSketch::new(n) for every n in [1,65536] yields rows that can hold mask+1 counters and a fresh sketch estimates 0 then 1; TinyLFU step: estimate after increment == min(estimate+1, 16) unless the aging reset fired, in which case w=0, doorkeeper empty and counters halved; a batch of 4 keys applied to a cleared estimator gives estimate >= #occurrences. By induction over these steps: estimate >= min(16, #recorded since last reset).",
   "note": "Rows of 1 and 4 bytes in the step harnesses (the loops are width-generic; other widths are outside the bounded claim), doorkeeper of 64-512 bits, seeds arbitrary (RNG stubbed by kani::any). Histories are covered by induction over one step from an arbitrary state, not by exploring sequences.",
   "design": "6/C13"},
+ "C14": {
+  "text": "Membership for an arbitrary filter (64 / 128 bits quick, 512 thorough), 1..8 probes, arbitrary 64-bit hashes: add => contains, bits only get set, contains_or_add returns !contains_before, reset/clear empty every word. Structural premises of the false-positive bound: every one of the m bits is individually addressable (set(i) changes exactly bit i), add sets exactly the positions (h + i*l) & size, get_size / the integer path of Bloom::new give a consistent geometry.",
+  "note": "The statistical clause itself is not solver-decidable; the f64 sizing formula (ln/powf) is outside (CBMC's libm model is nondeterministic).",
+  "design": "6/C14"},
+ "C15": {
+  "text": "RingStripe::push for every buffer_items in 0..3 and up to 5 lookups: every key appears exactly once, in order, in the handed-over batches; a batch is handed over exactly when the buffer reaches buffer_items whatever the policy answers; Cache::get/get_mut record every lookup, hit or miss, and nothing on a closed cache; the policy worker applying a batch raises each key's estimate by at least its multiplicity.",
+  "note": "LFUPolicy::push's body (select! on the bounded(3) queue, KeepGets/DropGets accounting) cannot be compiled by Kani and is outside the claim; interleavings with the worker reduce to sequences of {push, apply batch} because both are mutex-protected.",
+  "design": "6/C15"},
+ "C16": {
+  "text": "Charge formula: the queued item carries cost (+ Coster value when cost == 0, every Coster = arbitrary table); the processor charges cost + size_of::<StoreItem<V>>() unless ignore_internal_cost (both settings), Update re-charges cost + external + overhead, and the cost reported to on_reject / on_evict (eviction and expiry) equals the charged cost.",
+  "note": "V = u64 only. Observation O2 (a vetoed or colliding insert overwrites the resident's charge through costs.update in add) is outside what the harnesses assert.",
+  "design": "6/C16"},
+ "C17": {
+  "text": "Real MetricsInner (11 x 256 striped atomics): add raises exactly counter t by delta for every hash, stripe index < 256, clear zeroes, ratio = hits/(hits+misses). Call sites (recorder stub): each lookup on the open cache adds exactly one Hit or Miss; I-M (keys_added - keys_evicted == #charged, cost_added - cost_evicted == charged total mod 2^64) is preserved by New/Update/Delete events including the two's-complement negative delta; histogram update keeps count == sum of buckets and hits the right bucket.",
+  "note": "sets_dropped / gets_kept / gets_dropped live inside select! arms Kani cannot compile (by reading). Life expectancy: no entry is ever tracked (O1) so that clause holds vacuously. Histogram with the first 4 of the 16 real bounds.",
+  "design": "6/C17"},
+ "C18": {
+  "text": "TransparentKeyBuilder for bool and all ten integer types at full width: index == key as u64 == to_u64, conflict 0, deterministic, injective. Collision isolation at store level (conflict mismatch => NotExist/Conflict/None and the resident entry untouched: c02_store_*) and at cache level with a key builder that forces two keys onto one index: lookups, insert and remove of the second key never read, overwrite or remove the first key's value; the colliding value is refused through on_reject.",
+  "note": "DefaultKeyBuilder String/&str equality (SeaHash + xxh64 over symbolic bytes) exceeds 12 GB even for 4 bytes: outside (String::hash delegates to str::hash by construction).",
+  "design": "6/C18"},
+ "C20": {
+  "text": "Panic-freedom is an implicit assertion of every harness (Kani checks every reachable panic, overflow, bounds). Specifically: CacheBuilder::finalize returns InvalidNumCounters / InvalidMaxCost / InvalidBufferSize exactly for a zero parameter; CountMinSketch::new works for every num_counters in [1, 65536]; RingStripe for buffer_items 0..3; a closed cache is inert.",
+  "note": "What finalize does after validation (thread spawning, Bloom::new float sizing) and worker liveness are outside; max_cost negative/1 only through the arbitrary max_cost in [-2^40, 2^40] of the policy harnesses.",
+  "design": "6/C20"},
 }
 
 NOT_APPLICABLE = {
+ "C07": "the rule is entirely inside LFUPolicy::add's admission/eviction loop; with the real TinyLFU and a 3-slot map model every configuration tried needs 15-30 GB or does not finish (DESIGN.md 6/C01 Cost); there is no cheaper lemma to fall back on, so it is not claimed rather than replaced by another technique",
+ "C19": "AsyncCache's client methods, task loops and executor/polling order cannot be executed by Kani (futures select!, async-channel, async-io Timer); the processor/cleanup code it shares with Cache through macros is decided for the sync instantiation only in this tree",
  "C12": "close() finality/idempotence/worker termination is entirely about blocking rendezvous sends between OS threads and thread exit; Kani cannot execute crossbeam-channel, parking or std::thread (compile-time ICE on TLS destructors), and no stretto logic can be separated from them (DESIGN.md 6/C12, 8)",
 }
 
+READY = set(open(os.path.join(V, "tools", "ready.txt")).read().split())
 checks = []
 for pid in sorted(index):
-    if pid not in CLAIMS:
+    if pid not in CLAIMS or pid not in READY:
         continue
     c = CLAIMS[pid]
     checks.append({
